@@ -50,6 +50,9 @@ func (c *Ctx) Add(e *driver.Env) {
 	for k, v := range e.CBCounts() {
 		c.Stats[k] += v
 	}
+	if e.RC != nil && e.RC.Recycle {
+		c.Stats["c17.items-recycled"] += e.RC.RecycledCount()
+	}
 	if e.F != nil {
 		c.Stats["file.reads"] += e.F.NReads
 		c.Stats["file.writes"] += e.F.NWrites
